@@ -54,14 +54,35 @@ def classify_sanitizer(stderr_text):
             kind = "tsan-" + m.group(1).strip().replace(" ", "-")
     if not kind:
         return None
+    # innermost frame in SRC/ or FORTRAN/ (a CBLAS leaf such as dcopy_ is skipped in favour of its library caller)
     func = "?"
-    libframes = re.findall(r"#\d+ 0x[0-9a-f]+ in (\S+) (\S+)", stderr_text)
+    first_stack = stderr_text.split("\n\n")[0] if "\n\n" in stderr_text else stderr_text
+    head = stderr_text
+    m_alloc = re.search(r"\n(allocated by thread|previously allocated by thread|Previous (?:write|read)|Location is)", stderr_text)
+    if m_alloc:
+        head = stderr_text[:m_alloc.start()]
+    libframes = re.findall(r"#\d+ 0x[0-9a-f]+ in (\S+) (\S+)", head)
+    cblas = None
     for fn, loc in libframes:
-        if "/SRC/" in loc or "/CBLAS/" in loc or "/FORTRAN/" in loc:
+        if "/SRC/" in loc or "/FORTRAN/" in loc:
             func = fn
             break
+        if "/CBLAS/" in loc and cblas is None:
+            cblas = fn
+    if func == "?" and cblas:
+        func = cblas
     inlib = func != "?"
-    return kind, func, inlib
+    extra = ""
+    m = re.search(r"\n(READ|WRITE) of size", stderr_text)
+    if m:
+        extra += "|" + m.group(1)[0]
+    if m_alloc and stderr_text[m_alloc.start():].lstrip().startswith("allocated by"):
+        tail = stderr_text[m_alloc.start():]
+        for fn, loc in re.findall(r"#\d+ 0x[0-9a-f]+ in (\S+) (\S+)", tail):
+            if "/SRC/" in loc or "/FORTRAN/" in loc:
+                extra += "|alloc:" + fn
+                break
+    return kind, func + extra, inlib
 
 
 class Worker(threading.Thread):
@@ -173,7 +194,7 @@ def load_known():
 
 def match_known(known, prop, key):
     for f in known.get("findings", []):
-        if f.get("property") == prop and re.fullmatch(f["key_regex"], key):
+        if prop in f.get("properties", [f.get("property")]) and re.fullmatch(f["key_regex"], key):
             return f
     return None
 
@@ -367,6 +388,25 @@ def main():
             shutil.copy(casepath, final)
         reported.append((key, final, (d3.get(key) or detail)))
 
+    # ---- probe the recorded findings of this property: each one that still reproduces is printed as KNOWN-FINDING ----
+    for kf in known.get("findings", []):
+        if prop not in kf.get("properties", [kf.get("property")]) or kf["id"] in known_hits:
+            continue
+        if kf.get("probe_property", kf.get("properties", [None])[0]) != prop:
+            continue  # probed once, by the first property listed
+        rp = os.path.join(VERIF, kf["replay"])
+        if not os.path.exists(rp):
+            continue
+        c = json.load(open(rp))
+        v = c.get("variant") or variants[0]
+        exe = exes.get(v) or exes[variants[0]]
+        ks, det, rc, err = run_replay(exe, rp)
+        if any(re.fullmatch(kf["key_regex"], k) for k in ks):
+            known_hits[kf["id"]] = kf
+        elif ks:
+            for k in sorted(ks):
+                if not match_known(known, prop, k):
+                    reported.append((k, rp, det[k]))
     wall = time.time() - t0
     # ---- evidence ----
     st = ctx.stats
